@@ -6,25 +6,33 @@
 (* be a behaviour of TxnAtomic's database layer, and every invariant of TxnAtomic must hold after *)
 (* every event.  The driver records observations only; the judgement is made here.               *)
 (*                                                                                               *)
-(* A content is [dig, sum]: digest of the canonical dump of every table, digest of                *)
-(* get_wallet_summary.  Events (field a):                                                        *)
-(*   reset    a new (pre-state, operation) group; dig/sum of the pre-state                        *)
+(* A content is [dig, sum, inv]: digest of the canonical dump of every table, digest of           *)
+(* get_wallet_summary, and the cross-table facts the driver computed by SQL in the same snapshot  *)
+(* as the dump (a record of booleans; [unknown |-> TRUE] where no dump was taken).  Every          *)
+(* observation of a committed state -- pre-state, state after a call that returned Ok or Err,     *)
+(* what a reader transaction saw, every crash image after recovery -- carries its own inv and     *)
+(* must be Sound (TxnAtomic!Consistent).  Events (field a):                                       *)
+(*   reset    a new (pre-state, operation) group; dig/sum/inv of the pre-state                    *)
 (*   restore  the harness put a pristine copy of the pre-state file in place                      *)
 (*   opstart  mode ref | plain | fault | retry                                                    *)
 (*   wbegin wstmt wcommit wrollback wend winterrupt writer's connection (hooks, autocommit flag)  *)
 (*   rbegin rread rend                              reader's connection                          *)
-(*   crash    a copy of the database files taken at this moment, reopened: dig                    *)
-(*   opend    res, auto (autocommit flag), dig/sum (second connection), wdig (writer's connection) *)
+(*   crash    a copy of the database files taken at this moment, reopened: dig, inv               *)
+(*   opend    res, auto (autocommit flag), dig/sum/inv (second connection), wdig (writer's conn.)  *)
 EXTENDS Naturals, Sequences, FiniteSets, TLC, Json, IOUtils
 
 VARIABLES db, w, r, op, exp, pc, l, base
 
-T == INSTANCE TxnAtomic WITH MaxStmts <- 0, MaxReads <- 0, Wal <- TRUE, Mutant <- "none"
+\* the cross-table invariants of a content: every fact the driver computed for it holds
+TraceSound(c) == \A k \in DOMAIN c.inv : c.inv[k]
+
+T == INSTANCE TxnAtomic WITH MaxStmts <- 0, MaxReads <- 0, Wal <- TRUE, Mutant <- "none", Sound <- TraceSound
 
 Rec == ndJsonDeserialize(IOEnv.TRACE)
 tvars == << db, w, r, op, exp, pc, l, base >>
 
-Nil == [dig |-> "", sum |-> ""]
+Unknown == [unknown |-> TRUE]
+Nil == [dig |-> "", sum |-> "", inv |-> Unknown]
 NoExp == [known |-> FALSE, res |-> "none", data |-> Nil]
 IsEvent(e) == l <= Len(Rec) /\ Rec[l].a = e /\ l' = l + 1
 Quiet == op.st # "run" /\ ~w.txn /\ ~r.txn
@@ -35,7 +43,7 @@ TraceInit ==
 
 TReset ==
     /\ IsEvent("reset") /\ Quiet
-    /\ LET d == [dig |-> Rec[l].dig, sum |-> Rec[l].sum]
+    /\ LET d == [dig |-> Rec[l].dig, sum |-> Rec[l].sum, inv |-> Rec[l].inv]
        IN  /\ db' = [ver |-> 0, data |-> d]
            /\ w' = T!IdleW /\ r' = T!IdleR(d) /\ op' = T!IdleOp(d) /\ exp' = NoExp
            /\ base' = d
@@ -61,7 +69,7 @@ TWEnd      == IsEvent("wend") /\ T!WEnd /\ Same
 \* the commit hook fires before the commit; a refused commit is followed at once by the rollback
 TWCommit ==
     /\ IsEvent("wcommit")
-    /\ LET c == [dig |-> Rec[l].dig, sum |-> Rec[l].sum]
+    /\ LET c == [dig |-> Rec[l].dig, sum |-> Rec[l].sum, inv |-> Rec[l].inv]
        IN  IF l < Len(Rec) /\ Rec[l + 1].a = "wrollback" THEN T!WCommitBusy
            ELSE IF w.txn THEN T!WCommit(c) ELSE T!WAutoCommit(c)
     /\ Same
@@ -69,28 +77,30 @@ TWCommit ==
 TRBegin == IsEvent("rbegin") /\ T!RBegin /\ Same
 TREnd   == IsEvent("rend") /\ T!REnd /\ Same
 \* the version a logged value belongs to: one that was durable during the read transaction (preferring the
-\* one already seen), else a content nothing accounts for
-Resolve(kind, val) ==
-    LET m == { c \in r.live : IF kind = "dump" THEN c.dig = val ELSE c.sum = val }
+\* one already seen), else a content nothing accounts for.  A dump carries the facts computed in its own
+\* snapshot: they are judged as observed (a dump whose facts differ from those of the version with the same
+\* digest belongs to no version).
+Resolve(kind, val, inv) ==
+    LET m == { c \in r.live : IF kind = "dump" THEN c.dig = val /\ c.inv = inv ELSE c.sum = val }
     IN  IF m \cap r.seen # {} THEN CHOOSE c \in m \cap r.seen : TRUE
         ELSE IF m # {} THEN CHOOSE c \in m : TRUE
-        ELSE IF kind = "dump" THEN [dig |-> val, sum |-> "?"] ELSE [dig |-> "?", sum |-> val]
+        ELSE IF kind = "dump" THEN [dig |-> val, sum |-> "?", inv |-> inv] ELSE [dig |-> "?", sum |-> val, inv |-> Unknown]
 TRRead ==
     /\ IsEvent("rread")
-    /\ IF Rec[l].val = "busy" THEN T!RBusy ELSE T!RRead(Resolve(Rec[l].kind, Rec[l].val))
+    /\ IF Rec[l].val = "busy" THEN T!RBusy ELSE T!RRead(Resolve(Rec[l].kind, Rec[l].val, Rec[l].inv))
     /\ Same
 
 TCrash ==
     /\ IsEvent("crash")
     /\ LET known == {op.pre, db.data} \cup (IF exp.known THEN {exp.data} ELSE {})
-           m == { c \in known : c.dig = Rec[l].dig }
-       IN  T!CrashImage(IF m # {} THEN CHOOSE c \in m : TRUE ELSE [dig |-> Rec[l].dig, sum |-> "?"])
+           m == { c \in known : c.dig = Rec[l].dig /\ c.inv = Rec[l].inv }
+       IN  T!CrashImage(IF m # {} THEN CHOOSE c \in m : TRUE ELSE [dig |-> Rec[l].dig, sum |-> "?", inv |-> Rec[l].inv])
     /\ Same
 
 TOpEnd ==
     /\ IsEvent("opend")
-    /\ LET post == [dig |-> Rec[l].dig, sum |-> Rec[l].sum]
-           wpost == IF Rec[l].wdig = Rec[l].dig THEN post ELSE [dig |-> Rec[l].wdig, sum |-> "?"]
+    /\ LET post == [dig |-> Rec[l].dig, sum |-> Rec[l].sum, inv |-> Rec[l].inv]
+           wpost == IF Rec[l].wdig = Rec[l].dig THEN post ELSE [dig |-> Rec[l].wdig, sum |-> "?", inv |-> Unknown]
        IN  T!OpEnd(Rec[l].res, post, wpost, Rec[l].auto)
     /\ Same
 
@@ -108,6 +118,7 @@ NoDanglingTx == T!NoDanglingTx
 Snapshot == T!Snapshot
 CrashAtomic == T!CrashAtomic
 RetryConverges == T!RetryConverges
+Consistent == T!Consistent
 
 Accepted == LET n == TLCGet("stats").diameter - 1
             IN IF n = Len(Rec) THEN PrintT(<<"TRACE", "accepted", n>>)
